@@ -36,3 +36,12 @@ Definition pm_f32 (s : sx) : sx :=
       end
   | _ => sx_bad
   end.
+
+(* Suite "f32sweep": the implementation enumerates format -> parse -> format over a range of bit
+   patterns; the expected result is "no failure".  (An enumeration on the code, not a theorem about
+   the model: it backs the hypothesis of C11_print_parse_print_floats_partial.) *)
+Definition pm_f32sweep (s : sx) : sx :=
+  match s with
+  | SL [SZ _; _; SZ lo; SZ hi] => if (0 <=? lo) && (lo <=? hi) && (hi <=? 4294967296) then SL [SZ 0; SL [SZ 0; SZ (-1)]] else sx_bad
+  | _ => sx_bad
+  end.
